@@ -395,6 +395,22 @@ class P:
         if v == "loop":
             self.next()
             return ("loop", self.block())
+        if v == "while" and self.peek(1)[1] == "let":
+            # `while let PAT = EXPR BLOCK`  ==  `loop { match EXPR { PAT => BLOCK, _ => break } }`
+            self.next()
+            self.next()
+            pat = self.pattern()
+            self.expect("=")
+            scrut = self.expr(no_struct=True)
+            body = self.block()
+            return ("loop", ("block", [], ("match", scrut, [(pat, None, body), (("pwild",), None, ("break",))])))
+        if v == "for":
+            self.next()
+            pat = self.pattern()
+            self.expect("in")
+            it = self.expr(no_struct=True)
+            body = self.block()
+            return ("for", pat, it, body)
         if v == "break":
             self.next()
             return ("break",)
@@ -1041,6 +1057,9 @@ class MEmitter(PEmitter):
         elif final[0] == "loop" and not has_node(final[1], "break"):
             lines += self.stmt_expr(final, ind)
             lines.append("m_unreachable")
+        elif final[0] == "for":
+            lines += self.stmt_expr(final, ind)
+            lines.append("pure ()")
         elif final[0] in ("unsafe", "block") and (final[1] if final[0] == "unsafe" else final)[2] is None:
             # a block without a value in tail position: its statements (they may mutate the locals)
             lines += self.stmt_expr(final, ind)
@@ -1609,6 +1628,128 @@ def own_facts():
     return "\n".join(out) + "\n"
 
 
+
+# ---------------------------------------------------------------------------------------------------
+# fourth pass: the default loops over an abstract known-size iterator (prelude Orx/RS/Loop.lean)
+
+CLOSURE_TYPES = {"Closure1": 1, "ClosureIdx": 2, "ClosureFold": 2}
+
+
+class LEmitter(MEmitter):
+    """MEmitter + calls of closure-typed locals (`f(x)` -> `m_call1 f x`) and `for PAT in EXPR { .. }`"""
+
+    MUT_FNS = set()
+
+    def closure_arity(self, name):
+        return CLOSURE_TYPES.get(self.ty_of(name))
+
+    def ex(self, e, ind):
+        if e[0] == "call" and e[1][0] == "id" and self.closure_arity(e[1][1]) is not None:
+            ls, atoms = [], []
+            for x in e[2]:
+                l, a = self.ex(x, ind)
+                ls += l
+                atoms.append(a)
+            t = self.fresh()
+            return ls + ["let %s ← m_call%d %s %s" % (t, len(atoms), lid(e[1][1]), " ".join(atoms))], t
+        if e[0] == "unary" and e[1] == "&mut":
+            return self.ex(e[2], ind)
+        return MEmitter.ex(self, e, ind)
+
+    def stmts(self, stmts, final, ind, tail=None, capture=None):
+        # `let mut f = fun;` keeps the closure type
+        for st in stmts:
+            if st[0] == "let" and st[1][0] == "pvar" and st[2][0] == "id" and self.ty_of(st[2][1]) in CLOSURE_TYPES:
+                self.let_types[st[1][1]] = self.ty_of(st[2][1])
+        return MEmitter.stmts(self, stmts, final, ind, tail=tail, capture=capture)
+
+    def stmt_expr(self, e, ind):
+        if e[0] == "for":
+            pat, it, body = e[1], e[2], e[3]
+            if has_node(body, "break") or has_node(body, "return"):
+                return ["let _ ← %s" % self.unsup("break / return inside a for loop")]
+            ls, x = self.ex(it, ind)
+            in_scope = [n for (n, _) in self.scope]
+            state = [v for v in dict.fromkeys(in_scope) if v in assigned_in(body, set())]
+            mark = len(self.scope)
+            for v in pat_vars(pat, []):
+                self.bind(v)
+            pad2 = " " * (ind + 2)
+            if not state:
+                inner = self.stmts(body[1], body[2], ind + 2, tail="pure ()")
+                del self.scope[mark:]
+                return ls + ["let _ ← m_for_in %s (fun %s => do\n%s)" % (x, self.pat(pat), "\n".join(pad2 + l for l in inner))]
+            st_tuple = "(%s)" % ", ".join(lid(v) for v in state) if len(state) > 1 else lid(state[0])
+            inner = ["let mut %s := %s" % (lid(v), "st__" if len(state) == 1 else proj_of("st__", k2, len(state))) for k2, v in enumerate(state)]
+            inner += self.stmts(body[1], body[2], ind + 2, tail="pure %s" % st_tuple)
+            del self.scope[mark:]
+            t = self.fresh()
+            out = ls + ["let %s ← m_for_in_st %s %s (fun st__ %s => do\n%s)" % (t, x, st_tuple, self.pat(pat), "\n".join(pad2 + l for l in inner))]
+            for k2, v in enumerate(state):
+                out.append("%s := %s" % (lid(v), t if len(state) == 1 else proj_of(t, k2, len(state))))
+            return out
+        return MEmitter.stmt_expr(self, e, ind)
+
+
+L_OUT = os.path.join(os.path.dirname(OUT), "Loops.lean")
+LTARGETS = [
+    dict(ns="Loops", file="iter/default_fns/for_each.rs", impl=None, fns=["for_each"], self_ty=None,
+         params={"iter": "ItH", "fun": "Closure1"}),
+    dict(ns="Loops", file="iter/default_fns/for_each.rs", impl=None, fns=["for_each_with_ids"], self_ty=None,
+         params={"iter": "ItH", "fun": "ClosureIdx"}),
+    dict(ns="Loops", file="iter/default_fns/fold.rs", impl=None, fns=["fold"], self_ty=None,
+         params={"iter": "ItH", "fold": "ClosureFold", "neutral": "Nat"}, lets={"buffered_iter": "BufH"}),
+]
+
+
+def find_free_fn(text, fn):
+    """(params text, body text) of a free function `fn <fn>`"""
+    fm = re.search(r"\bfn\s+%s\s*(?:<[^>]*>)?\s*\(" % re.escape(fn), text)
+    if not fm:
+        raise LookupError("free fn %s not found" % fn)
+    p0 = fm.end() - 1
+    p1 = match_brace(text, p0, "(", ")")
+    b0 = text.index("{", p1)
+    b1 = match_brace(text, b0)
+    return text[p0 + 1:p1], text[b0:b1 + 1]
+
+
+def main_loops():
+    chunks, report = [], []
+    for t in LTARGETS:
+        text = strip_comments(open(os.path.join(SRC, t["file"])).read())
+        for fn in t["fns"]:
+            params, body = find_free_fn(text, fn)
+            _, plist = param_list(params, t.get("params", {}))
+            ast = P(tokenize(body) + [("eof", "")]).block()
+            scope = [(n, ty) for (n, ty) in plist]
+            lets = dict(t.get("lets", {}))
+            lets.setdefault("buffered_iter", "BufH")
+            em = LEmitter(t["ns"], set(), {}, [], fn, scope, lets)
+            term = fn_body_mut(em, ast, 2, False)
+            sig = " {ρ' : Type} (fuel : Nat)" + "".join(" (%s : %s)" % (lid(n), ty) for (n, ty) in scope)
+            for (hn, htext) in em.hoisted:
+                chunks.append(htext)
+            name = "%s.%s" % (t["ns"], lid(fn))
+            chunks.append("/-- `%s` (src/%s) -/\ndef %s%s :=\n  (m_fn (%s : PF _ _) : PF ρ' _)\n" % (fn, t["file"], name, sig, term))
+            report.append((t["ns"], fn, em.unsupported))
+    # the trait's default methods dispatch to these functions with the arguments in this order
+    ci = strip_comments(open(os.path.join(SRC, "iter/con_iter.rs")).read())
+    disp = []
+    for (m, callee) in (("for_each", "for_each::for_each"), ("enumerate_for_each", "for_each::for_each_with_ids"), ("fold", "fold::fold")):
+        mm = re.search(r"\bfn\s+%s\b.*?\{\s*(default_fns::%s\s*\([^;{}]*\))\s*;?\s*\}" % (m, re.escape(callee)), ci, flags=re.S)
+        disp.append('("%s", "%s")' % (m, re.sub(r"\s+", "", mm.group(1)) if mm else "?"))
+    facts = ("/-- how `ConcurrentIter::{for_each, enumerate_for_each, fold}` (src/iter/con_iter.rs) call the functions above -/\n"
+             "def Loops.dispatch : List (String × String) := [%s]\n" % ", ".join(disp))
+    body = ("/- GENERATED by tools/rs2lean.py from the Rust sources on every run -- do not edit. -/\n"
+            "import Orx.RS.Loop\nset_option linter.unusedVariables false\nnamespace Orx.GenL\nopen Orx Orx.RSL\n"
+            "open Orx.RS (Next NextChunk Span)\n\n" + "\n".join(chunks) + "\n" + facts + "\nend Orx.GenL\n")
+    old = open(L_OUT).read() if os.path.exists(L_OUT) else None
+    if old != body:
+        open(L_OUT, "w").write(body)
+    return report
+
+
 def ns_functions():
     """namespace -> set of generated function names"""
     out = {}
@@ -1736,6 +1877,7 @@ def main():
         open(OUT, "w").write(body)
     report += main_prog()
     report += main_prog(OTARGETS, O_OUT, own=True)
+    report += main_loops()
     bad = [(ns, fn, u) for (ns, fn, u) in report if u]
     print("rs2lean: %d functions translated, %d with unsupported constructs" % (len(report), len(bad)))
     for (ns, fn, u) in bad:
